@@ -505,6 +505,13 @@ func (e *Engine) genReplayTest(c *FnCtx, ins []*replayInput) (string, error) {
 				} else {
 					fmt.Fprintf(&b, "\tobs[\"r%d\"] = map[string]any{\"float_bits\": fmt.Sprint(math.Float64bits(float64(r%d)))}\n", i, i)
 				}
+			} else if stt, isS := rt.Underlying().(*types.Struct); isS && plainIntStruct(stt) {
+				// a struct of integer/boolean fields: observe each field (the test is in-package)
+				fmt.Fprintf(&b, "\tobs[\"r%d\"] = map[string]any{\"struct\": map[string]any{", i)
+				for k := 0; k < stt.NumFields(); k++ {
+					fmt.Fprintf(&b, "%q: fmt.Sprint(r%d.%s), ", stt.Field(k).Name(), i, stt.Field(k).Name())
+				}
+				b.WriteString("}}\n")
 			} else {
 				fmt.Fprintf(&b, "\tobs[\"r%d\"] = map[string]any{\"v\": fmt.Sprint(r%d)}\n", i, i)
 			}
@@ -522,6 +529,20 @@ func (e *Engine) genReplayTest(c *FnCtx, ins []*replayInput) (string, error) {
 	}
 	b.WriteString("}\n")
 	return b.String(), nil
+}
+
+// plainIntStruct: every field is an integer or a boolean.
+func plainIntStruct(st *types.Struct) bool {
+	if st.NumFields() == 0 {
+		return false
+	}
+	for i := 0; i < st.NumFields(); i++ {
+		b, ok := st.Field(i).Type().Underlying().(*types.Basic)
+		if !ok || b.Info()&(types.IsInteger|types.IsBoolean) == 0 {
+			return false
+		}
+	}
+	return true
 }
 
 func (e *Engine) runOverlayTest(fi *FuncInfo, src string) (string, error) {
@@ -706,6 +727,19 @@ func (e *Engine) confirmPost(o *Obligation, ins []*replayInput, obs map[string]a
 				} else {
 					term = fmt.Sprintf("((_ to_fp 8 24) ((_ int2bv 32) %s))", intLit(om["float_bits"].(string)))
 				}
+			} else if fm, isStruct := om["struct"].(map[string]any); isStruct {
+				stt := rt.Underlying().(*types.Struct)
+				var fs []string
+				for k := 0; k < stt.NumFields(); k++ {
+					s, _ := fm[stt.Field(k).Name()].(string)
+					switch s {
+					case "true", "false":
+						fs = append(fs, s)
+					default:
+						fs = append(fs, intLit(s))
+					}
+				}
+				term = app("mk_"+c.sortOf(rt), fs...)
 			} else {
 				s, _ := om["v"].(string)
 				switch s {
